@@ -282,6 +282,13 @@ func (maps *trackedMaps) processUnfiltered(ctx context.Context, ef *Filter, filt
 					return fmt.Errorf("%s: unable to create new tracked maps for slice: %w", op, err)
 				}
 				f := field
+				if !f.CanSet() {
+					// a struct stored by value in a map isn't settable, so
+					// filter a settable copy which is stored in the map below.
+					f = reflect.New(ftype).Elem()
+					f.Set(field)
+					field = f
+				}
 				if err := ef.filterField(ctx, f, filterOverrides, newMaps, opt...); err != nil {
 					return fmt.Errorf("%s: unable to filter struct: %w", op, err)
 				}
